@@ -2362,3 +2362,294 @@ func stringIsToGo(r *core.Run, rule string) {
 	}
 	r.Check(why == "", rule, "ASEIsolationLevel.String is ToGo().String()", fn.Pos(), "return lvl.ToGo().String()", why)
 }
+
+// locksReleased: every Lock/RLock in package tds is released on every way out: by a deferred Unlock/RUnlock on the
+// same mutex that follows the acquisition, or by an explicit one on every path to every return. A read lock that
+// survives one exit of the reader's WritePacket blocks Close (which needs the write lock) for good.
+func locksReleased(r *core.Run, rule string) {
+	p := r.Prog
+	n := 0
+	for _, fn := range p.ModuleFuncs() {
+		if fn.Blocks == nil || fn.Pkg == nil || fn.Pkg.Pkg.Path() != core.Module+"/tds" || p.FuncInOverlay(fn) {
+			continue
+		}
+		isMu := func(c ssa.CallInstruction, names ...string) (string, bool) {
+			f := core.StaticCallee(c)
+			if f == nil || f.Signature.Recv() == nil || len(c.Common().Args) == 0 {
+				return "", false
+			}
+			rt := f.Signature.Recv().Type().String()
+			if !strings.HasSuffix(rt, "sync.RWMutex") && !strings.HasSuffix(rt, "sync.Mutex") {
+				return "", false
+			}
+			for _, nm := range names {
+				if f.Name() == nm {
+					return core.KExpr(c.Common().Args[0]), true
+				}
+			}
+			return "", false
+		}
+		for _, c := range core.Calls(fn) {
+			if _, isDefer := c.(*ssa.Defer); isDefer {
+				continue
+			}
+			f := core.StaticCallee(c)
+			mu, ok := isMu(c, "Lock", "RLock")
+			if !ok {
+				continue
+			}
+			want := "Unlock"
+			if f.Name() == "RLock" {
+				want = "RUnlock"
+			}
+			n++
+			released := false
+			for _, c2 := range core.Calls(fn) {
+				if d, isDefer := c2.(*ssa.Defer); isDefer {
+					if m2, ok2 := isMu(d, want); ok2 && m2 == mu && core.Dominates(c.(ssa.Instruction), d) {
+						released = true
+					}
+				}
+			}
+			why := ""
+			if !released {
+				// explicit: every path from the acquisition to a return passes a matching release
+				core.EnumPaths(c.Block(), func(b *ssa.BasicBlock) bool { return false }, nil, 4000, func(pa core.Path, ended bool) {
+					last := pa.Blocks[len(pa.Blocks)-1]
+					ret, isRet := last.Instrs[len(last.Instrs)-1].(*ssa.Return)
+					if !isRet {
+						return
+					}
+					rel := false
+					for i, b := range pa.Blocks {
+						for _, in := range b.Instrs {
+							if i == 0 && !core.Dominates(c.(ssa.Instruction), in) {
+								continue
+							}
+							if c2, isC := in.(*ssa.Call); isC {
+								if m2, ok2 := isMu(c2, want); ok2 && m2 == mu {
+									rel = true
+								}
+							}
+						}
+					}
+					if !rel {
+						why = core.FuncName(fn) + " can return (" + p.Pos(ret.Pos()) + ") still holding " + mu + " (" + f.Name() + " without a matching " + want + " on that path): every later Lock on it — Channel.Close, Conn.Close — blocks for good"
+					}
+				})
+			}
+			r.Check(why == "", rule, core.FuncName(fn)+": "+f.Name()+" of "+mu+" released on every exit", c.Pos(), "deferred or explicit "+want+" on every path", why)
+		}
+	}
+	if n == 0 {
+		r.Bad(rule, "lock pairing", token.NoPos, "no lock acquisition found in package tds")
+	}
+}
+
+// negateFlips: R16.10 (Negate). Decimal.Negate flips the sign: the only math/big method it calls on the value is Neg.
+func negateFlips(r *core.Run) {
+	p := r.Prog
+	fn := p.Func("asetypes", "Decimal", "Negate")
+	why := ""
+	n := 0
+	for _, c := range core.Calls(fn) {
+		f := core.StaticCallee(c)
+		if f == nil || f.Pkg == nil || f.Pkg.Pkg.Path() != "math/big" {
+			continue
+		}
+		n++
+		if f.Name() != "Neg" {
+			why = "Decimal.Negate also calls big.Int." + f.Name() + ": the sign is forced instead of flipped, so negating a negative decimal (or negating twice) does not give the negated value"
+		}
+	}
+	if n == 0 {
+		why = "Decimal.Negate does not call big.Int.Neg"
+	}
+	r.Check(why == "", "R16.10", "Decimal.Negate: flips the sign (only big.Int.Neg)", fn.Pos(), "dec.i.Neg(dec.i)", why)
+}
+
+// ownBigInt: R16.13. Every decimal has a big.Int of its own: NewDecimal stores a freshly allocated one, never a
+// package-level or otherwise shared value that the in-place setters (SetInt64, SetBytes, Negate) would then write into.
+func ownBigInt(r *core.Run) {
+	p := r.Prog
+	fn := p.Func("asetypes", "", "NewDecimal")
+	fI := p.Field("asetypes", "Decimal", "i")
+	why := "NewDecimal does not set the big.Int"
+	for _, b := range fn.Blocks {
+		for _, in := range b.Instrs {
+			st, ok := in.(*ssa.Store)
+			if !ok {
+				continue
+			}
+			fa, isFA := st.Addr.(*ssa.FieldAddr)
+			if !isFA || core.FieldOfAddr(fa) != fI {
+				continue
+			}
+			switch v := core.Strip(st.Val).(type) {
+			case *ssa.Alloc:
+				why = ""
+			case *ssa.Call:
+				if f := v.Call.StaticCallee(); f != nil && f.Pkg != nil && f.Pkg.Pkg.Path() == "math/big" && strings.HasPrefix(f.Name(), "New") {
+					why = ""
+				} else {
+					why = "NewDecimal takes its big.Int from " + core.Expr(st.Val)
+				}
+			default:
+				why = "NewDecimal gives the decimal the big.Int " + core.Expr(st.Val) + ", which is not allocated by this call: SetInt64/SetBytes/Negate write in place, so decoding one decimal changes every other decimal that shares it"
+			}
+		}
+	}
+	r.Check(why == "", "R16.13", "NewDecimal: a big.Int of its own", fn.Pos(), "i: new(big.Int)", why)
+}
+
+// idAsMinted: R18.5 (ID). Name.ID returns the id the name holds, unchanged.
+func idAsMinted(r *core.Run, rule string) {
+	p := r.Prog
+	fn := p.Func("namepool", "Name", "ID")
+	fID := p.Field("namepool", "Name", "id")
+	why := ""
+	for _, ret := range core.Returns(fn) {
+		v := core.RetVals(ret)[0]
+		ok := false
+		if u, isU := v.(*ssa.UnOp); isU && u.Op == token.MUL {
+			if f, _ := core.FieldLoad(u.X); f == fID {
+				ok = true
+			}
+		}
+		if !ok {
+			why = "Name.ID returns " + core.Expr(v) + ", not the id the name holds: two held names can report the same id (or zero), and the text is no longer the format applied to the reported id"
+		}
+	}
+	r.Check(why == "", rule, "Name.ID: the id as it was minted", fn.Pos(), "return *name.id", why)
+}
+
+// specStoredAsGiven: R19.8 (constructor). NewDefaultVersion stores the specification it is given.
+func specStoredAsGiven(r *core.Run, rule string) {
+	p := r.Prog
+	fn := p.Func("capability", "", "NewDefaultVersion")
+	fSpec := p.Field("capability", "DefaultVersion", "spec")
+	why := "NewDefaultVersion does not set the specification"
+	for _, b := range fn.Blocks {
+		for _, in := range b.Instrs {
+			st, ok := in.(*ssa.Store)
+			if !ok {
+				continue
+			}
+			fa, isFA := st.Addr.(*ssa.FieldAddr)
+			if !isFA || core.FieldOfAddr(fa) != fSpec {
+				continue
+			}
+			if st.Val == ssa.Value(fn.Params[0]) {
+				why = ""
+			} else {
+				why = "NewDefaultVersion stores " + core.Expr(st.Val) + " as the specification, not the string it was given: the comparer is asked about another version (case-folded pre-release identifiers order differently), membership flips without an error"
+			}
+		}
+	}
+	r.Check(why == "", rule, "NewDefaultVersion stores the specification as given", fn.Pos(), "spec: spec", why)
+}
+
+// hasIsTheRecord: R19.3 (clause). Has answers what SetCapability recorded: its result is the map lookup itself, with
+// no further condition on the capability.
+func hasIsTheRecord(r *core.Run, rule string) {
+	p := r.Prog
+	fn := p.Func("capability", "DefaultVersion", "Has")
+	why := ""
+	for _, ret := range core.Returns(fn) {
+		v := core.Strip(core.RetVals(ret)[0])
+		ok := false
+		switch x := v.(type) {
+		case *ssa.Lookup:
+			ok = true
+		case *ssa.Extract:
+			_, ok = x.Tuple.(*ssa.Lookup)
+		case *ssa.Const:
+			// false for a capability that was never recorded: under the !ok edge of the lookup itself
+			if x.Value != nil && x.Value.ExactString() == "false" {
+				for _, g := range core.GuardsAt(ret) {
+					if ex, isEx := g.Cond.(*ssa.Extract); isEx && ex.Index == 1 && !g.Pol {
+						if _, isL := ex.Tuple.(*ssa.Lookup); isL {
+							ok = true
+						}
+					}
+				}
+			}
+		}
+		if !ok {
+			why = "DefaultVersion.Has returns " + core.Expr(v) + ", not the recorded answer itself: a capability whose ranges have no lower bound (unbounded below) is reported absent although the evaluation recorded it as present"
+		}
+	}
+	r.Check(why == "", rule, "DefaultVersion.Has returns the recorded answer", fn.Pos(), "return v.capabilities[cap]", why)
+}
+
+// idLimit: the exhaustion test of getValidChannelId compares with the largest 16-bit id: 65535 is the last id handed
+// out, 65536 does not fit the header field and would travel as channel 0.
+func idLimit(r *core.Run, rule string) {
+	p := r.Prog
+	fn := p.Func("tds", "Conn", "getValidChannelId")
+	n := 0
+	why := ""
+	for _, b := range fn.Blocks {
+		for _, in := range b.Instrs {
+			bo, ok := in.(*ssa.BinOp)
+			if !ok {
+				continue
+			}
+			k, isK := core.ConstInt64(bo.Y)
+			if !isK || k < 1000 {
+				continue
+			}
+			n++
+			okCmp := (bo.Op == token.GTR && k == 65535) || (bo.Op == token.GEQ && k == 65536)
+			if !okCmp {
+				why = fmt.Sprintf("the id space is declared exhausted by %s: ids up to %d are handed out, but the header carries 16 bits — id 65536 is sent as channel 0, the main channel", core.Expr(bo), k)
+			}
+		}
+	}
+	if n == 0 {
+		why = "no exhaustion test against the 16-bit limit found"
+	}
+	r.Check(why == "", rule, "getValidChannelId: ids end at 65535", fn.Pos(), "id > math.MaxUint16 is the exhaustion test", why)
+}
+
+// statusNotNarrowed: the status of a parameter format is written at the width of its variant without passing through
+// a narrower type (TDS_PARAMFMT2 carries four bytes).
+func statusNotNarrowed(r *core.Run, rule string) {
+	p := r.Prog
+	fn := p.Func("tds", "ParamFmtPackage", "WriteToField")
+	n := 0
+	for _, c := range core.Calls(fn) {
+		if !c.Common().IsInvoke() || c.Common().Method.Name() != "WriteUint32" {
+			continue
+		}
+		n++
+		r.Check(!core.NarrowedIn(c.Common().Args[0]), rule, "ParamFmtPackage.WriteToField: 32-bit value written at full width", c.Pos(), "no narrower conversion on the way", "a value written with WriteUint32 ("+core.Expr(c.Common().Args[0])+") passes through a narrower integer type: the wide variant's four-byte status loses its upper bytes")
+	}
+	if n == 0 {
+		r.Bad(rule, "ParamFmtPackage.WriteToField: WriteUint32", fn.Pos(), "no 32-bit write found")
+	}
+}
+
+// lastPkgReadsOnly: ParamsPackage.LastPkg takes the formats from its predecessor and leaves it as it is: it runs on
+// every parse attempt, and an attempt that is rolled back must leave no trace.
+func lastPkgReadsOnly(r *core.Run, rule string) {
+	p := r.Prog
+	fn := p.Func("tds", "ParamsPackage", "LastPkg")
+	why := ""
+	for _, b := range fn.Blocks {
+		for _, in := range b.Instrs {
+			st, ok := in.(*ssa.Store)
+			if !ok {
+				continue
+			}
+			fa, isFA := st.Addr.(*ssa.FieldAddr)
+			if !isFA {
+				continue
+			}
+			if core.Strip(fa.X) != ssa.Value(fn.Params[0]) {
+				why = "LastPkg stores into " + core.Expr(fa.X) + "." + core.FieldOfAddr(fa).Name() + ", i.e. into the package that preceded it: the store is repeated by every parse attempt, and after a rolled-back attempt the retry finds its predecessor changed (a row cut by a packet boundary fails with 'both formats are nil')"
+			}
+		}
+	}
+	r.Check(why == "", rule, "ParamsPackage.LastPkg writes its own fields only", fn.Pos(), "no store through the predecessor", why)
+}
